@@ -3,8 +3,8 @@
 import glob, json, os, re, sys
 V = os.path.dirname(os.path.dirname(os.path.abspath(__file__)))
 rnd = sys.argv[1]
-pat = {"s": "-s[12]", "r2": "-r2s[12]", "r3": "-r3s[12]", "r4": "-r4s[12]", "r5": "-r5s[12]", "r6": "-r6s[12]", "r7": "-r7s[12]"}[rnd]
-first = json.load(open(os.path.join(V, "notes", "seed_first_runs.json"))).get({"r2": "round2", "r3": "round3", "r4": "round4", "r5": "round5", "r6": "round6", "r7": "round7"}.get(rnd, ""), {})
+pat = {"s": "-s[12]", "r2": "-r2s[12]", "r3": "-r3s[12]", "r4": "-r4s[12]", "r5": "-r5s[12]", "r6": "-r6s[12]", "r7": "-r7s[12]", "r8": "-r8s[12]"}[rnd]
+first = json.load(open(os.path.join(V, "notes", "seed_first_runs.json"))).get({"r2": "round2", "r3": "round3", "r4": "round4", "r5": "round5", "r6": "round6", "r7": "round7", "r8": "round8"}.get(rnd, ""), {})
 print("| Seed | Change (what it needs) | First run | Now |\n|---|---|---|---|")
 for m in sorted(glob.glob(os.path.join(V, "seeded", "*", "meta.json"))):
     sid = os.path.basename(os.path.dirname(m))
